@@ -41,7 +41,10 @@ def main():
     if rc != 0:
         print(o)
         return 2
-    env = dict(os.environ, CARGO_NET_OFFLINE="true", CARGO_TARGET_DIR=target)
+    tmpd = "/tmp/seedv/tmp-%s" % os.path.basename(out.rstrip("/"))
+    os.makedirs(tmpd, exist_ok=True)
+    # private TMPDIR: the stubgen tests of the pinned suite write to $TMPDIR/trustfall_stubgen and collide across concurrent runs
+    env = dict(os.environ, CARGO_NET_OFFLINE="true", CARGO_TARGET_DIR=target, TMPDIR=tmpd)
     res = {"property": prop, "demo_cmd": demo_cmd}
 
     def rewrite(cmd):
